@@ -651,7 +651,30 @@ def s_read_only(tier):
                             writes.append(f"System.{n_}: {site}")
                     except Exception:  # noqa: BLE001  (an evaluation this scene does not support: not this obligation's business)
                         pass
+            # the exporters and sensors are clients too: each contribution's export() and every Sensor record on one frame
+            from cardillo.solver import Solution
+
+            frame = next(iter(Solution(s, np.array([vals["t"]]), np.array([vals["q"]]), np.array([vals["u"]]), la_g=np.array([vals["la_g"]]), la_c=np.array([vals["la_c"]]), la_N=np.array([vals["la_N"]]), la_F=np.array([vals["la_F"]]), P_N=np.array([vals["la_N"]]), P_F=np.array([vals["la_F"]]))))
+            n_clients = 0
+            for c in s.contributions:
+                calls = []
+                if hasattr(c, "export"):
+                    calls.append((f"{type(c).__name__}.export", lambda c=c: c.export(frame)))
+                for rec, f_ in getattr(c, "functions", {}).items() if type(c).__name__ == "Sensor" else ():
+                    qc, uc = vals["q"][c.qDOF], vals["u"][c.uDOF]
+                    calls.append((f"Sensor.{getattr(rec, 'name', rec)}", lambda f_=f_, qc=qc, uc=uc: f_(0.37, qc, uc) if f_.__code__.co_argcount == 4 else f_(0.37, qc)))
+                for label, call in calls:
+                    n_clients += 1
+                    for _ in range(2):
+                        try:
+                            call()
+                        except ValueError as e:
+                            if "read-only" in str(e):
+                                tb = traceback.extract_tb(e.__traceback__)
+                                writes.append(f"{label}: " + next((f"{fr.filename.split('cardillo/')[-1]}:{fr.lineno} {fr.line}" for fr in reversed(tb) if "/cardillo/" in fr.filename), "?"))
+                        except Exception:  # noqa: BLE001
+                            pass
             writes = sorted(set(writes))
-            out.append(dict(name=f"{name}: no evaluation routine writes into an array held by a cache ({ncache} caches made read-only, {len(fns)} System routines x 3 passes)", ok=not writes, backend="native-execution (cached arrays read-only)", show="no write" if not writes else "; ".join(writes[:4]), detail="; ".join(writes[:6]), replay=None if not writes else {"scene": name, "writes": writes[:10]}))
+            out.append(dict(name=f"{name}: no evaluation routine writes into an array held by a cache ({ncache} caches made read-only, {len(fns)} System routines x 3 passes, {n_clients} exporters / sensor records)", ok=not writes, backend="native-execution (cached arrays read-only)", show="no write" if not writes else "; ".join(writes[:4]), detail="; ".join(writes[:6]), replay=None if not writes else {"scene": name, "writes": writes[:10]}))
             out.append(dict(name=f"{name}: vacuity guard - the scene has memoised methods", ok=ncache > 0, backend="native-execution", show=str(ncache)))
     return out
